@@ -411,6 +411,10 @@ def main():
         cov["evaluations"] += raw_cov["raw_cases"]
         cov["distinct_nontrivial"] += raw_cov["raw_cases"]
         cov["traces_validated_against_impl"] += raw_cov["raw_cases"] - raw_cov["disagreements"]
+    if prop == "C05":
+        cov["exhaustive_subspaces"] = ["all digraphs with <= %d vertices (graph level)" % (3 if tier == "quick" else 4),
+                                       "all histories: 2 constructors over 2 keys x every dependency subset x every scope of both 3-scope trees x Export x both verification modes x scope created early/late, followed by every Invoke"
+                                       + ("" if tier == "quick" else "; the same with 3 constructors without Export")]
     if graph_cov:
         cov["graph_level"] = graph_cov
         cov["evaluations"] += graph_cov["graphs"]
